@@ -14,11 +14,12 @@ Theorem C20_decode_empty : forall S p fuel n fs kp ia r rcx x s',
 Proof. exact decode_empty_is_default. Qed.
 Print Assumptions C20_decode_empty.
 
-(* stronger: neither well-formedness nor an idle reader is needed, and the rest state is determined *)
+(* stronger: neither well-formedness nor an idle reader is needed, and the rest state is determined
+   (clrp: the compact reader has dropped a pending bool field announcement, if there was one) *)
 Theorem C20_decode_empty_strong : forall S p fuel n fs kp ia r rcx x s',
   lookup S n = Some (DStruct fs kp ia) ->
   gen_decode S p fuel (TyRef n) (mkS (x00 :: r) rcx) = Ok (x, s') ->
-  default_of S (TyRef n) = Some x /\ s' = mkS r rcx.
+  default_of S (TyRef n) = Some x /\ s' = mkS r (clrp p rcx).
 Proof. exact decode_empty_default. Qed.
 Print Assumptions C20_decode_empty_strong.
 
